@@ -15,3 +15,20 @@ package parser
 //@   ensures result1 ==> result0 != nil && result0.Name == name && exists k int :: 0 <= k && k < len(t.Enums) && t.Enums[k] == result0 && forall j int :: 0 <= j && j < k ==> t.Enums[j].Name != name
 //@   ensures !result1 ==> result0 == nil && forall k int :: 0 <= k && k < len(t.Enums) ==> t.Enums[k].Name != name
 //@   loop 1 invariant forall j int :: 0 <= j && j < $i ==> t.Enums[j].Name != name
+
+// ---- include cycles (C04): local step of the depth-first search ----
+
+//@ pure func wfIncludes() bool { return forall x *Thrift :: x != nil ==> forall i int :: 0 <= i && i < len(x.Includes) ==> x.Includes[i] != nil }
+
+//@ func searchCircle(cur *Thrift, nodes []string) string
+//@   requires wfIncludes()
+//@   ensures cur == nil ==> result == ""
+//@   ensures cur != nil && (exists k int :: 0 <= k && k < len(nodes) && nodes[k] == cur.Filename) ==> result != ""
+//@   ensures cur != nil && result == "" ==> forall j int :: 0 <= j && j < len(cur.Includes) ==> cur.Includes[j].Reference == nil || (cur.Includes[j].Reference.Filename != cur.Filename && forall k int :: 0 <= k && k < len(nodes) ==> nodes[k] != cur.Includes[j].Reference.Filename)
+//@   loop 1 invariant forall k int :: 0 <= k && k < $i ==> nodes[k] != cur.Filename
+//@   loop 2 invariant len(nodes) >= 1 && nodes[len(nodes)-1] == cur.Filename
+//@   loop 2 invariant forall j int :: 0 <= j && j < $i ==> cur.Includes[j].Reference == nil || (cur.Includes[j].Reference.Filename != cur.Filename && forall k int :: 0 <= k && k < len(nodes) - 1 ==> nodes[k] != cur.Includes[j].Reference.Filename)
+
+//@ func CircleDetect(ast *Thrift) string
+//@   requires wfIncludes()
+//@   ensures ast != nil && result == "" ==> forall j int :: 0 <= j && j < len(ast.Includes) ==> ast.Includes[j].Reference == nil || ast.Includes[j].Reference.Filename != ast.Filename
